@@ -30,6 +30,9 @@ _add("C14", *_REACHT, "Pfdl.Props.C14.ids_consecutive", "Pfdl.Props.C14.unique_s
 _add("C08", *_REACH, "Pfdl.Props.C08.accept_iff", "Pfdl.Props.C08.accept_iff_partial", "Pfdl.Props.C08.accept_iff_full_false",
      "Pfdl.Props.C08.reject_noop", "Pfdl.Props.C08.as_if_never_sent", "Pfdl.Props.C08.start_idempotent",
      "Pfdl.Props.C08.invalid_inert")
+# C09 at the net layer: no look-up error (IndexError / KeyError / ValueError branches of the code-level model unreachable)
+_add("C09", "Pfdl.Net.C09.no_lookup_error_partial", "Pfdl.Net.C09.accepted_no_lookup_error_partial",
+     "Pfdl.Net.C09.construction_raises_nothing", "Pfdl.Net.generate_ginv", "Pfdl.Net.gkeeps", "Pfdl.Net.skeeps")
 # C08 at the net layer (fire_event as the code does it, also when it is called re-entrantly)
 _add("C08", "Pfdl.Net.C08.refused_no_effect", "Pfdl.Net.C08.fire_refused", "Pfdl.Net.C08.start_again_no_effect",
      "Pfdl.Net.C08.erased_before_delivery")
